@@ -38,7 +38,12 @@ def deparse_to_taco_add(self: ast.Add) -> str:
 
 @deparse_to_taco_expression.register(ast.Subtract)
 def deparse_to_taco_subtract(self: ast.Subtract) -> str:
-    return f"{deparse_to_taco_expression(self.left)} - {deparse_to_taco_expression(self.right)}"
+    right_string = deparse_to_taco_expression(self.right)
+    if isinstance(self.right, (ast.Add, ast.Subtract)):
+        # Subtraction is not associative: a - (b - c) must not be printed as a - b - c
+        right_string = f"({right_string})"
+
+    return f"{deparse_to_taco_expression(self.left)} - {right_string}"
 
 
 @deparse_to_taco_expression.register(ast.Multiply)
